@@ -105,9 +105,27 @@ pub fn worker(engine: &dyn Engine, a: &WorkerArgs) -> i32 {
             }
         }
         i += a.stride;
+        // Some engines make the process grow (every run builds several VMs; whatever gluon or the
+        // allocator keeps is never returned). A worker that got big hands over to a fresh process:
+        // runs are independent of process boundaries (see the determinism self check).
+        if i < a.to && resident_bytes() > std::env::var("VERIF_RECYCLE_AT").ok().and_then(|s| s.parse().ok()).unwrap_or(RECYCLE_AT) {
+            let f = out.as_mut().unwrap();
+            let _ = writeln!(f, "RECYCLE {}", i);
+            let _ = f.flush();
+            return 96;
+        }
     }
     let _ = out.as_mut().unwrap().flush();
     0
+}
+
+const RECYCLE_AT: u64 = 1_500_000_000;
+
+fn resident_bytes() -> u64 {
+    fs::read_to_string("/proc/self/statm")
+        .ok()
+        .and_then(|s| s.split_whitespace().nth(1).and_then(|x| x.parse::<u64>().ok()))
+        .map_or(0, |pages| pages * 4096)
 }
 
 // ---------------------------------------------------------------------------------------------
@@ -325,6 +343,7 @@ pub fn batch(engine: &dyn Engine, a: &BatchArgs) -> i32 {
             let text = fs::read_to_string(&out).unwrap_or_default();
             let mut started: Option<(u64, u64)> = None;
             let mut last_viol_index: Option<u64> = None;
+            let mut recycle_next: Option<u64> = None;
             for line in text.lines() {
                 let mut it = line.splitn(4, ' ');
                 let tag = it.next().unwrap_or("");
@@ -377,6 +396,7 @@ pub fn batch(engine: &dyn Engine, a: &BatchArgs) -> i32 {
                         agg.violations.push(r);
                     }
                     "DEADLINE" => agg.deadline_hit = true,
+                    "RECYCLE" => recycle_next = it.next().and_then(|x| x.parse().ok()),
                     _ => {}
                 }
             }
@@ -388,7 +408,11 @@ pub fn batch(engine: &dyn Engine, a: &BatchArgs) -> i32 {
                     status_text(&status)
                 };
                 let mut next = None;
-                if status.code() == Some(98) {
+                if status.code() == Some(96) && recycle_next.is_some() {
+                    // the worker grew too big and asked to be replaced
+                    *agg.counters.entry("worker_processes_recycled".to_string()).or_insert(0) += 1;
+                    next = recycle_next;
+                } else if status.code() == Some(98) {
                     // the scheduler watchdog fired: the token holder was blocked outside of every
                     // scheduling point (harness limitation, see sched.rs). Inconclusive, not a
                     // violation; too many of them make the batch a harness error below
